@@ -192,6 +192,45 @@ func VerifyFunc(P *Program, fn *ssa.Function, c *Contract, cf *ContractFile, ins
 			e.bindError(name+".holds", fmt.Errorf("cannot resolve lock %s", h))
 		}
 	}
+	// axioms of the package's contract file (assumed, listed) and lemmas named by `use lemma` (proved separately)
+	var allCF []*ContractFile
+	if cf != nil {
+		allCF = append(allCF, cf)
+	}
+	for _, pk := range keysOf(P.Contracts) {
+		if P.Contracts[pk] != cf {
+			allCF = append(allCF, P.Contracts[pk])
+		}
+	}
+	for _, lcf := range allCF {
+		for _, lm := range lcf.Lemmas {
+			if lcf != cf && !lm.Assumed {
+				continue
+			}
+			cf := lcf
+			used := lm.Assumed
+			for _, u := range c.Lemmas {
+				if u == lm.Name {
+					used = true
+				}
+			}
+			if !used {
+				continue
+			}
+			lctx := &EvalCtx{st: st, old: st, binds: map[string]Val{}, cf: cf, pkg: entryCtx.pkg, noLocals: true}
+			if pp := P.Pkgs[cf.Pkg]; pp != nil && pp.Types != nil {
+				lctx.pkg = pp.Types
+			}
+			if g, err := e.evalBool(lctx, lm.E); err == nil {
+				e.assume("true", g)
+				if lm.Assumed {
+					e.assumed["axiom (assumed, not proved): "+pkgShort(cf.Pkg)+"."+lm.Name+": "+lm.Text] = true
+				}
+			} else {
+				e.bindError(name+".lemma "+lm.Name, err)
+			}
+		}
+	}
 	entryLocks := cloneMap(st.locks)
 	for _, r := range c.Requires {
 		g, err := e.evalBool(entryCtx, r.E)
